@@ -8,7 +8,8 @@ with the library.  Anything outside the subset raises LyError.
 
 Tree nodes
     Block(items)                       `{ ... }` sequential music
-    Times(num, den, items)             `\\times num/den { ... }`: inner durations are multiplied by num/den
+    Times(num, den, items)             `\\times num/den { ... }` (or `\\tuplet den/num { ... }`): inner durations are
+                                       multiplied by num/den
     Key(letter, alter, mode)           `\\key bes \\minor`  -> ('B', -1, 'minor')
     Time(num, den)                     `\\time 6/8`
     Event(pitches, base, dots)         note (1 pitch), chord (`< ... >`, >= 1 pitch) or rest (pitches is None);
@@ -177,6 +178,10 @@ class _P(object):
             if ch == "\\":
                 save = self.i
                 name = self.command()
+                if name == "version":
+                    self.ws()
+                    self.string()
+                    continue
                 if name != "header":
                     self.i = save
                     self.err("unexpected top-level command \\%s" % name)
@@ -248,6 +253,13 @@ class _P(object):
                         self.err("bad \\times fraction")
                     self.expect("{")
                     out.append(Times(n, d, self.items()))
+                elif name == "tuplet":
+                    # modern spelling: \tuplet 3/2 { } == \times 2/3 { }
+                    n, d = self.fraction()
+                    if n < 1 or d < 1:
+                        self.err("bad \\tuplet fraction")
+                    self.expect("{")
+                    out.append(Times(d, n, self.items()))
                 else:
                     self.err("command \\%s is not in the subset" % name)
             elif ch == "<":
